@@ -120,7 +120,10 @@ pub fn ask_python(xml: &str) -> Result<PyDoc, Fail> {
 // writer direction
 
 fn writer_profile(max_nodes: usize, text: TextMode) -> ForestProfile {
-    xml_profile(max_nodes, false, text)
+    let mut p = xml_profile(max_nodes, false, text);
+    // conformance of the document, not which properties are kept: DoesNotSerialize properties are C02's side-check
+    p.non_serializing = false;
+    p
 }
 
 #[derive(Clone, Debug, Serialize, Deserialize)]
@@ -383,6 +386,7 @@ fn reader_profile(max_nodes: usize, known_only: bool) -> ForestProfile {
     // types docs/xml.md does not describe cannot be rendered from the document
     p.types.retain(|t| !matches!(t, rbx_types::VariantType::SecurityCapabilities | rbx_types::VariantType::Vector2int16));
     p.free_roots = false;
+    p.non_serializing = false;
     p
 }
 
